@@ -354,6 +354,11 @@ def run(ctx):
     ctx.check(okr, "C04.e", "fixed_width_binning:range", "bins forced for range[0] and range[1] (right end inclusive)", f"range growth calls: {calls}", fw.where)
     ctx.check(okd, "C04.e", "fixed_width_binning:data", "bins forced for min(data) and max(data) with includes_right_edge forwarded", f"data growth calls: {calls}", fw.where)
 
+    ctor_ = [c for c in calls_in(fw.node) if U(c.func) == "FixedWidthBinning"]
+    ctx.check(len(ctor_) == 1 and U(kwarg(ctor_[0], "bin_width")) == "bin_width" and U(kwarg(ctor_[0], "includes_right_edge")) == "includes_right_edge"
+              and any(k.arg is None for k in ctor_[0].keywords), "C04.e", "fixed_width_binning:constructor",
+              "FixedWidthBinning(bin_width=bin_width, includes_right_edge=includes_right_edge, **kwargs)",
+              f"the binning is constructed as {[U(c)[:80] for c in ctor_]}", fw.where)
     from rules import c07
     c07.check_pretty_factory(ctx, "C04.e", m)
 
